@@ -826,25 +826,27 @@ func findSegmentData(segs []*MediaSegment, refTrak *TrakBox, trex *TrexBox) ([]s
 			if frag.Moof == nil {
 				return nil, fmt.Errorf("fragment without moof box")
 			}
+			firstRefTraf := true // a moof may hold several traf boxes of the reference track
 			for _, traf := range frag.Moof.Trafs {
 				tfhd := traf.Tfhd
 				if tfhd == nil {
 					return nil, fmt.Errorf("traf box without tfhd box")
 				}
 				if tfhd.TrackID == refTrak.Tkhd.TrackID { // Find track that gives sidx time values
-					if fIdx == 0 && traf.Tfdt != nil {
+					if fIdx == 0 && firstRefTraf && traf.Tfdt != nil {
 						baseTime = traf.Tfdt.BaseMediaDecodeTime()
 					}
 					for i, trun := range traf.Truns {
 						trun.AddSampleDefaultValues(tfhd, trex)
 						samples := trun.GetSamples()
 						for j, sample := range samples {
-							if fIdx == 0 && i == 0 && j == 0 {
+							if fIdx == 0 && firstRefTraf && i == 0 && j == 0 {
 								firstCompositionTimeOffest = int64(sample.CompositionTimeOffset)
 							}
 							dur += uint64(sample.Dur)
 						}
 					}
+					firstRefTraf = false
 				}
 			}
 		}
